@@ -161,8 +161,8 @@ impl Campaign for KeyCampaign {
   fn rule(&self) -> String {
     let src = match self.source {
       Source::Shipped => "layout = one of the five built-in layouts or a README example (loaded by the real parser+converter)",
-      Source::Random => "layout = random small layout (1-5 mappings quick, 1-7 thorough; 0-2 trigger modifiers + final key; output empty | modifiers | modifiers+key; repeat Normal/Disabled/Special; absorbing subset of trigger modifiers) passed through the real loader",
-      Source::Dist => "layout = random small layout with distinguishable outputs (mapping i ends in its own key F13..F20, never pressed physically) passed through the real loader",
+      Source::Random => "layout = random small layout (1-5 mappings quick, 1-7 thorough; 0-2 (now and then 3) trigger modifiers + final key; output empty | modifiers | modifiers+key, a quarter of the runs also unusual shapes; repeat Normal/Disabled/Special; absorbing subset of trigger modifiers; a third of the layouts are alias motifs as the @alias/row shorthands expand to, half of the others derive mappings from earlier ones) passed through the real loader; one case in three renamed by a random injective map over the whole key-code space",
+      Source::Dist => "layout = random small layout (plain, derived or alias motif) with distinguishable outputs (mapping i ends in its own key F13..F20, never pressed physically) passed through the real loader; one case in three renamed over the whole key-code space (distinguished keys stay)",
       Source::Empty => "layout = empty",
     };
     format!("{}; history = seeded schedule of key actors, 0-3 chord intents and state-aware bias, at most N keys held (N 1-4 quick, 1-6 thorough), length 4-40 quick / 4-120 thorough, channel faults (duplicate press, spurious release, dropped event; swarm: half of the runs fault-free){}; a case is distinct by hash of (layout, ops); non-trivial = {}",
